@@ -266,3 +266,58 @@ Proof.
   intros Hok Hd Hp Hs Hfc Hspec. rewrite (pdu_size_all q Hok Hd Hp), Hspec.
   apply reads_exactly_normal; auto. eapply spec_len_pos; eauto.
 Qed.
+
+(* ------------------------------------------------------------------ every diagnostic class of the source *)
+
+(* one row of GenSizes.diag_table: the class is the one the model names for that sub-function,
+   it is a sub-function of the spec, and (outside the delimited defects) its prediction is right *)
+Definition diag_row_ok (row : Z * string) : bool :=
+  let q := diag_request (fst row) in
+  String.eqb (class_of q) (snd row)
+  && option_eqb String.eqb (diag_class (fst row)) (Some (snd row))
+  && request_ok q
+  && (known_defect q
+      || option_eqb Z.eqb (predicted_pdu_size (snd row) (attrs_of q)) (spec_response_pdu_len q)).
+
+Lemma diag_table_checked : forallb diag_row_ok diag_table = true /\ map fst diag_table = spec_diag_subs.
+Proof. split; vm_compute; reflexivity. Qed.
+
+Lemma option_eqb_Z a b : option_eqb Z.eqb a b = true -> a = b.
+Proof. destruct a, b; cbn; intros H; try discriminate; [f_equal; lia | reflexivity]. Qed.
+
+Lemma diag_all_classes sub cls :
+  In (sub, cls) diag_table ->
+  class_of (diag_request sub) = cls /\ In sub spec_diag_subs /\
+  (known_defect (diag_request sub) = false ->
+   predicted_pdu_size cls (attrs_of (diag_request sub)) = spec_response_pdu_len (diag_request sub)).
+Proof.
+  intros Hin. destruct diag_table_checked as [Hall Hsubs].
+  rewrite forallb_forall in Hall. specialize (Hall _ Hin). unfold diag_row_ok in Hall. cbn [fst snd] in Hall.
+  apply andb_prop in Hall as [Hall Hpred]. apply andb_prop in Hall as [Hall _]. apply andb_prop in Hall as [Hcls _].
+  split; [apply String.eqb_eq; exact Hcls|]. split.
+  - rewrite <- Hsubs. apply (in_map fst) in Hin. exact Hin.
+  - intros Hd. rewrite Hd in Hpred. cbn [orb] in Hpred. apply option_eqb_Z. exact Hpred.
+Qed.
+
+(* ------------------------------------------------------------------ TCP (socket framer) *)
+
+(* the client reads the 7-byte MBAP header plus the function code, then length - 2 more bytes;
+   the request's prediction is not used on this path *)
+Lemma tcp_reads_exactly p fc pred :
+  1 <= p -> 0 <= fc < 128 ->
+  recv_plan FSocket (expected_response_length FSocket pred) (spec_adu_len FSocket p) fc (1 + p)
+  = ([Some 8; Some (p - 1)], RecvDone (Some (spec_adu_len FSocket p))).
+Proof.
+  intros Hp Hfc. rewrite socket_not_predicted. sz_simpl.
+  replace (Z.min (Z.max 8 0) (7 + p)) with 8 by lia. closed_cmp; cbn [negb]; cbv beta iota.
+  replace (fc <? 128) with true by lia. apply plan_eq; lia.
+Qed.
+
+Lemma tcp_reads_exactly_exception fc pred mbap :
+  128 <= fc ->
+  recv_plan FSocket (expected_response_length FSocket pred) (spec_adu_len FSocket exception_pdu_len) fc mbap
+  = ([Some 8; Some 1], RecvDone (Some (spec_adu_len FSocket exception_pdu_len))).
+Proof.
+  intros Hfc. rewrite socket_not_predicted. sz_simpl.
+  replace (fc <? 128) with false by lia. reflexivity.
+Qed.
